@@ -22,6 +22,7 @@ MANIFEST_ENTRY = {
 def tasks(tier, seed):
     return [
         dict(kind="custom", module="props.c04_tasks", fn="setup_clauses"),
+        dict(kind="custom", module="props.c04_tasks", fn="installer_scan"),      # index guards (a table on other dates is refused) and the pre-start row of each frame
         func("bt.core.SecurityBase.allocate"), func("bt.core.SecurityBase.transact"), func("bt.core.SecurityBase.update"), func("bt.core.FixedIncomeSecurity.update"),
         func("bt.core.CouponPayingSecurity.update"), func("bt.core.HedgeSecurity.update"), func("bt.core.CouponPayingHedgeSecurity.update"), *UPDATE_ALL,
         dict(kind="custom", module="props.lemmas", fn="c07_trade_lemmas"),
